@@ -89,6 +89,28 @@ theorem C12_jacobian_hasDerivAt (sc : SContent) (hwf : sc.wf = true) (t : Rat) (
   refine ⟨cache, x, hc, hx, fun i e hie hd => ⟨?_, h i e hie hd⟩⟩
   simp only [jacobianOf, List.getElem?_map, hie, Option.map_some, Option.bind_some, hx]
 
+/-- **whether `Model.__call__` returns or raises depends on names only**: for a well-formed surrogate-free model, if the
+    numeric right-hand side is defined at one state it is defined at every state of the same length (every raising path
+    of the shared numeric core is a failed name lookup; rate functions are total in the model, division by zero being
+    outside it). -/
+theorem C12_rhs_defined_by_names (sc : SContent) (hwf : sc.wf = true) (t : Rat) (xs xs' ds : List Rat)
+    (hlen : xs'.length = xs.length) (h : callRhs sc.toContent t xs = .ok ds) :
+    ∃ ds', callRhs sc.toContent t xs' = .ok ds' :=
+  callRhs_total sc.toContent (allFn_of_wf sc hwf) t xs xs' ds hlen h
+
+/-- **the symbolic Jacobian is the derivative of the numeric right-hand side — no assumption about other states.**
+    If the model converts and `Model.__call__` returns at `xs`, then for every coordinate `j` and component `i`, the
+    function `v ↦ Model.__call__(t, xs[j := v])[i]` (`rhsAlong`: the shared numeric core itself) is differentiable at
+    `xs[j]` with derivative entry `(i, j)` of the symbolic Jacobian evaluated at the state and the model's parameter
+    values — wherever no denominator of equation `i` vanishes.  (`C12_jacobian_hasDerivAt` had the definedness along the
+    coordinate as a hypothesis; `C12_rhs_defined_by_names` discharges it.) -/
+theorem C12_jacobian_hasDerivAt_total (sc : SContent) (hwf : sc.wf = true) (t : Rat) (xs ds : List Rat) (j : Nat)
+    (es : List SExpr) (hj : j < xs.length) (hs : toSymbolic sc = .ok es) (h0 : callRhs sc.toContent t xs = .ok ds) :
+    ∃ cache x, createCache sc.toContent = .ok cache ∧ cache.varNames[j]? = some x ∧
+      ∀ (i : Nat) (e : SExpr), es[i]? = some e → DenOK (symEnv sc cache xs) e →
+        HasDerivAt (fun v : ℚ => (rhsAlong sc t xs j v).getD i 0) (evalS (symEnv sc cache xs) (D x e)) xs[j] :=
+  jac_hasDerivAt_total sc hwf t xs ds j es hj hs h0
+
 /-- **order independence (full statement).**  Take a well-formed model built from functions
     that translate, whose derived quantities and reactions mention only variables, plain
     parameters, data and derived quantities, with numeric coefficients and every variable in
@@ -210,6 +232,15 @@ theorem C12_no_needless_recompile (c : SContent) (ops : List SimOp) (s0 s : SimS
     s.recompilesG Generated.glue = false :=
   no_needless_recompile Generated.glue s (sim_history_inv Generated.glue C12_glue_generated c ops s0 s outs h0 hr) cl ver hj hver
 
+/-- **without a Jacobian only after a failed build.**  In every history, whenever the integrator calls for the Jacobian
+    and has none (`noJac`), the model did not convert at the moment the integrator was last built — construction or the
+    last `clear_results` / `update_variable(s)` (`NoJacJustified` threads that content along the history); it then stays
+    without one, whatever the model becomes, until it is built again.  (Sharpens the `noJac` clause of `GoodOuts`.) -/
+theorem C12_no_jacobian_only_after_failed_build (c : SContent) (ops : List SimOp) (s0 s : SimState)
+    (outs : List SimOut) (h0 : simInitG Generated.glue c = .ok s0) (hr : runG Generated.glue s0 ops = .ok (s, outs)) :
+    NoJacJustified c c ops outs :=
+  sim_history_noJac Generated.glue C12_glue_generated c ops s0 s outs h0 hr
+
 /-- why watching the parameter VALUES alone (the closure before the repair of F-C12-5) was enough for the Simulator's
     own methods: after parameter updates only (`ParUpd`: same declarations, a parameter keeps its value, gets another
     one, or — if it was given by an initial assignment — gets a plain one), an equal tuple of plain-parameter values
@@ -255,18 +286,37 @@ theorem C12_edit_needs_watch :
     jacAt witnessMM [1, 2] ≠ jacAt witnessMMEdited [1, 2] ∧ (jacAt witnessMMEdited [1, 2]).isSome = true :=
   ⟨by decide +kernel, by decide +kernel, by decide +kernel, by decide +kernel⟩
 
-/-- **exception safety of the closure** (seed C12-r4-1's direction): the model is edited into one that does not convert
-    (a rate law that takes `time`), the integrator calls the Jacobian — the compilation raises, the exception escapes —
-    and calls it again (the next `simulate`).  With the glue of the current source the closure remembers nothing from
-    the failed attempt: the second call compiles again and raises again.  With the two statements of the recompile
-    branch in the other order (`compileBeforeStore := false`: remember first, compile then) the second call is
-    answered with the matrix compiled for the OLD model. -/
+/-- **the conversion replaces the model's cache object** (`to_symbolic_model` starts with `model._create_cache()`), so the
+    object to remember is the one in place AFTER compiling, and it has to be stored after `_compile_jac()` has returned.
+    With the glue of the current source the history `call; update_parameter; call; call; call` compiles exactly once, at
+    the first call after the update.  With the cache object read before compiling (`glueReadBefore`), or with the stores
+    placed before the compilation (`glueStoreFirst`, seed C12-r4-1's order), every call after the update compiles again —
+    the matrices stay right (`C12_sim_history` does not need these two facts for correctness of the matrices; `GlueOk`
+    demands them for this theorem and for `C12_no_needless_recompile`). -/
+theorem C12_cache_object_replaced_by_conversion :
+    let ops : List SimOp := [.call 0 [1, 2], .setPar "c2" 7, .call 0 [1, 2], .call 0 [1, 2], .call 0 [1, 2]]
+    histCompiles expectedGlue witnessMM ops = some [false, false, true, false, false] ∧
+    histCompiles glueReadBefore witnessMM ops = some [true, false, true, true, true] ∧
+    histCompiles glueStoreFirst witnessMM ops = some [false, false, true, true, true] ∧
+    GlueOk glueReadBefore = false ∧ GlueOk glueStoreFirst = false :=
+  ⟨by decide +kernel, by decide +kernel, by decide +kernel, by decide, by decide⟩
+
+/-- **a recompilation that fails leaves nothing behind**: the model is edited into one that does not convert (a rate law
+    that takes `time`), the integrator calls the Jacobian — the compilation raises, the exception escapes — and calls it
+    again (the next `simulate`): the second call compiles again and raises again; a fresh Simulator on that model has no
+    Jacobian at all. -/
 theorem C12_failed_recompile_not_remembered :
     histOuts expectedGlue witnessMM [.edit witnessMMTime, .call 0 [1, 2], .call 0 [1, 2]] = some [.upd, .raised, .raised] ∧
-    histOuts glueStoreFirst witnessMM [.edit witnessMMTime, .call 0 [1, 2], .call 0 [1, 2]]
-      = some [.upd, .raised, outOf (jacAt witnessMM [1, 2])] ∧
-    jacAt witnessMMTime [1, 2] = none ∧ GlueOk glueStoreFirst = false :=
-  ⟨by decide +kernel, by decide +kernel, by decide +kernel, by decide⟩
+    histCompiles expectedGlue witnessMM [.edit witnessMMTime, .call 0 [1, 2], .call 0 [1, 2]] = some [false, true, true] ∧
+    jacAt witnessMMTime [1, 2] = none :=
+  ⟨by decide +kernel, by decide +kernel, by decide +kernel⟩
+
+/-- **after a call that returned a matrix the closure is in step with the model**: it remembers the cache object that
+    is in place now (the one the compilation left there, if it compiled) — so, by `C12_no_needless_recompile`, the next
+    call does not compile again unless the model is edited in between. -/
+theorem C12_call_leaves_closure_in_step (s s' : SimState) (t : Rat) (xs : List Rat) (J : List (List Rat))
+    (h : s.stepG Generated.glue (.call t xs) = .ok (s', .mat J)) : ∃ cl, s'.jac = some (cl, s'.version) :=
+  mat_in_step Generated.glue C12_glue_generated s s' t xs J h
 
 /-- the equations mention only variable symbols, plain-parameter symbols and data symbols (never
     `time`, a reaction, a derived quantity or a library function's own argument name) -/
